@@ -25,6 +25,7 @@ const (
 // tracker mirrors IoSys.disc_sys_step so that most histories are disciplined
 type trk struct {
 	open, stale bool
+	dirty       bool // wrote since the last flush / seek / close
 	iter        bool // a lines iterator was obtained on this handle (it stays usable for "next")
 	last        int
 	rd, wr      bool
@@ -308,7 +309,7 @@ func (g *gen) writeOp() Op {
 func (g *gen) setvbufOp() Op {
 	o := Op{T: "setvbuf", H: g.cur, VMode: []string{"no", "full", "full", "line"}[g.r.Intn(4)]}
 	if o.VMode != "no" && g.r.Chance(75) {
-		v := int64([]int{0, -1, 1, 2, 8, 16, 1024, 4096, 5000}[g.r.Intn(9)])
+		v := []int64{0, -1, 1, 2, 8, 16, 1024, 4096, 5000, 1 << 45, 1 << 62, 1 << 20, 1<<20 + 1}[g.r.Intn(13)]
 		o.Size = &v
 	}
 	return o
@@ -326,7 +327,7 @@ func (g *gen) note(o Op) {
 		}
 		g.ts = append(g.ts, trk{open: true, rd: modeRd(o.Mode), wr: modeWr(o.Mode)})
 		return
-	case "snap", "iolines", "stdclose":
+	case "snap", "iolines", "stdclose", "stdwrite", "devfull":
 		return
 	case "lclose":
 		for i := range g.ts {
@@ -345,18 +346,18 @@ func (g *gen) note(o Op) {
 			t.iter = true
 		}
 	case "write":
-		t.last, t.stale = lWrite, false
+		t.last, t.stale, t.dirty = lWrite, false, true
 		for i := range g.ts {
 			if i != o.H {
 				g.ts[i].stale = true
 			}
 		}
 	case "seek":
-		t.last, t.stale = lNone, false
+		t.last, t.stale, t.dirty = lNone, false, false
 	case "flush":
-		t.last = lNone
+		t.last, t.dirty = lNone, false
 	case "close":
-		t.open, t.last, t.stale = false, lNone, false
+		t.open, t.last, t.stale, t.dirty = false, lNone, false, false
 	}
 }
 
@@ -376,7 +377,7 @@ func (g *gen) separate() {
 
 // sync makes handle i hold no unflushed write (disciplined mode)
 func (g *gen) sync(i int) {
-	if g.ts[i].open && g.ts[i].last == lWrite {
+	if g.ts[i].open && g.ts[i].dirty {
 		save := g.cur
 		g.cur = i
 		switch g.r.Pick(50, 25, 25) {
@@ -446,7 +447,8 @@ func (g *gen) handleOp() {
 	if g.disc && t.open {
 		switch o.T {
 		case "read", "lines", "next":
-			if t.last == lWrite {
+			// no separator after the handle's own write: the read writes pending bytes out itself
+			if t.last == lWrite && g.r.Chance(40) {
 				g.separate()
 			}
 			if g.ts[g.cur].stale {
@@ -513,9 +515,16 @@ func (g *gen) history(maxOps int) Input {
 				g.openOp()
 			}
 		default:
-			switch r.Pick(84, 4, 5, 5, 2, 1) {
+			switch r.Pick(84, 4, 5, 5, 2, 2) {
 			case 5:
-				g.emit(Op{T: "stdclose", Which: []string{"stdout", "stderr"}[r.Intn(2)]})
+				switch r.Intn(3) {
+				case 0:
+					g.emit(Op{T: "stdclose", Which: []string{"stdout", "stderr"}[r.Intn(2)]})
+				case 1:
+					g.emit(Op{T: "stdwrite", Strs: [][]Seg{encode(g.wstr()), lit("tail\n")}})
+				default:
+					g.emit(Op{T: "devfull"})
+				}
 			case 0:
 				g.handleOp()
 			case 1:
